@@ -140,9 +140,9 @@ PROPS = {
     ),
     'C18': dict(
         technique='Kani/CBMC bounded model checking of the real DataUrl / DataUrlBuf constructors and accessors against a shape oracle (Uri::validate stubbed by its table twin)',
-        level_text='For every byte string within the bound (<= 9 bytes; <= 13 bytes for texts starting with data:, so that ;base64, fits) CBMC proves the borrowed constructor accepts exactly the valid URIs of the shape data:<media chars>[;base64],<data>, that its re-scanning accessors and parts() equal the oracle split (pointer and length) and reassemble the text, that the borrowed loop{} scanners terminate (unwinding assertions); and for every byte string <= 9 bytes that the owned constructor accepts the same set and its offset-based accessors and its borrowed view equal the same split. decoded_data() links the base64 engine and is a thorough-tier stretch harness (non-base64 branch only); the base64 decoding itself (base64 crate) is NOT decided in any tier.',
+        level_text='For every byte string within the bound (quick: <= 7 bytes; thorough stretch: <= 9 bytes, and <= 13 bytes for texts starting with data: so that ;base64, fits - 25+ min each) CBMC proves the borrowed constructor accepts exactly the valid URIs of the shape data:<media chars>[;base64],<data>, that its re-scanning accessors and parts() equal the oracle split (pointer and length) and reassemble the text, that the borrowed loop{} scanners terminate (unwinding assertions); and for every byte string <= 9 bytes that the owned constructor accepts the same set and its offset-based accessors and its borrowed view equal the same split. decoded_data() links the base64 engine and is a thorough-tier stretch harness (non-base64 branch only); the base64 decoding itself (base64 crate) is NOT decided in any tier.',
         level_note=BMC_NOTE,
-        outside='texts beyond 9 bytes (13 with the data: prefix); decoded_data() in the quick tier; the base64 decoding performed by the base64 crate',
+        outside='texts beyond 7 bytes in the quick tier (so the ;base64 branch, 13 bytes, is thorough-only), 9-13 bytes in the thorough tier; decoded_data() in the quick tier; the base64 decoding performed by the base64 crate',
         stubs=['Uri::validate -> table twin of the same automaton (extracted per run)'],
         assumptions=['media type characters as listed in data.rs::is_media_type_char (the oracle repeats the list)'],
     ),
